@@ -17,7 +17,7 @@
    next primitive, ChooseEnd leaves the context / calls land().
 
    Bug = "none" is the intended behaviour.  Named deviations (each refuted by a _bug cfg):
-     "landdiv0"     MotionCommander.land at height exactly 0 divides by zero (code as found)
+     "landdiv0"     MotionCommander.land at height exactly 0, and any zero-length move, divides by zero (code as found)
      "neglandsleep" PositionHlCommander.land below the landing height sleeps a negative time (as found)
      "noterm"       land does not stop the setpoint thread
      "swapfinal"    notify sent before stop
@@ -217,8 +217,9 @@ Choose(p) ==
     /\ p.op = "raise" => Mode = "with"
     /\ Helper = "PHC" /\ p.op \in {"move", "goto"} => RationalGo(p)
     /\ prog' = Append(prog, p)
-    /\ LET zero == p.op = "move" /\ Helper = "MC" /\ P!Dist(p.a, p.b, p.c) = 0     \* ZeroDivisionError in the primitive
-           ops == CASE p.op = "move" /\ Helper = "MC" -> MoveOps(p)
+    /\ LET nomove == p.op = "move" /\ Helper = "MC" /\ P!Dist(p.a, p.b, p.c) = 0   \* zero-length move: nothing to do
+           zero == nomove /\ Bug = "landdiv0"                                      \* (as found: ZeroDivisionError in the primitive)
+           ops == CASE p.op = "move" /\ Helper = "MC" -> IF nomove THEN <<>> ELSE MoveOps(p)
                     [] p.op = "turn" -> TurnOps(p)
                     [] p.op = "circle" -> CircOps(p)
                     [] p.op = "start" -> <<Op("vel", 0, [Lin(p.a, p.b, p.c) EXCEPT !.w = p.w])>>
@@ -231,7 +232,7 @@ Choose(p) ==
           THEN /\ todo' = LandOps /\ outcome' = (IF zero THEN "primexc" ELSE "scripted") /\ cur' = NoCur
                /\ UNCHANGED <<pos, est>>
           ELSE /\ todo' = ops \o todo /\ UNCHANGED outcome
-               /\ cur' = IF Helper = "MC" /\ P!Blocking(p)
+               /\ cur' = IF Helper = "MC" /\ P!Blocking(p) /\ ~nomove
                          THEN [p |-> p, c |-> 0, dur |-> DurQ(p), durUs |-> 0, ph |-> 0] ELSE NoCur
                /\ IF Helper = "PHC" /\ p.op \in {"setv", "seth", "setl"}
                   THEN pos' = P!NextSt(p, pos) /\ est' = P!NextSt(p, est)
